@@ -131,7 +131,7 @@ func Check(id string, o *CheckOpts) int {
 			}
 			eo := h.Opts(fn.Name(), o.Tier)
 			cfg := &Config{LoopBound: eo.Loop, StepBound: eo.Steps, Preempt: eo.Preempt, MaxAlts: 1024,
-				Stubs: h.Stubs, Noops: h.Noops, Cuts: h.Cuts, MapOrderAll: eo.MapOrderAll, Trace: o.Trace, Lazy: h.Lazy}
+				Stubs: h.Stubs, Noops: h.Noops, Cuts: h.Cuts, MapOrderAll: eo.MapOrderAll, Trace: o.Trace, Lazy: h.Lazy, PoolReuse: h.PoolReuse}
 			to := h.Timeout
 			if to == 0 {
 				to = 20 * time.Second
